@@ -84,7 +84,10 @@ def _case(draw, tier):
     else:
         c = ["const", draw(st.booleans())]
     fa = ["forall", u, c]
-    univ_attr = None
+    # the docs' form: the universal operand is an attribute expression of the universal variable (for_all(u.a, ...));
+    # the condition then reaches the universal variable through its attributes as before
+    if klass in ("both", "only_u") and chance(draw, 1, 3):
+        fa = ["forall", u, c, ["attr", ["var", u], draw(st.sampled_from(["a", "b", "s", "ref", "tags"]))]]
     combine = draw(st.sampled_from(["alone", "alone", "d_first", "d_last", "top_level"]))
     if combine == "alone":
         cond = fa
@@ -123,6 +126,7 @@ def check(case) -> Outcome:
     if A.has_kind(fa[2], "not"):
         feats.append("forall_cond_has_not")
     feats.append(f"free{len(case['vars']) - 1}")
+    feats.append("universal_is_attribute_expression" if len(fa) > 3 else "universal_is_variable")
     classes = list(feats) + [f"U{min(len(U), 4)}"]
     for caching in (True, False):
         (enable_caching if caching else disable_caching)()
